@@ -11,7 +11,9 @@ TERM = "::dxrt::Term"
 def specs_all(tier):
     out = []
     k = 0
-    shapes = ["plain", "generic", "generic_self_where", "generic_self_hrtb", "generic_self_hrtb_inline", "generic_self_nested", "output_self", "rhs_self"]
+    shapes = ["plain", "generic", "generic_self_where", "generic_self_hrtb", "generic_self_hrtb_inline", "generic_self_nested", "output_self", "rhs_self",
+              # operand types written `(&A)`, and handed in through `$t:ty` fragments of a macro_rules! macro
+              "paren", "frag"]
     for op in C.BINOPS:
         for shape in shapes:
             for lref in (False, True):
@@ -34,7 +36,7 @@ def render(s):
     op = s["op"]
     fn = C.OPFN[op]
     sym = C.OPSYM[op]
-    generic = s["shape"] not in ("plain", "rhs_self")
+    generic = s["shape"] not in ("plain", "rhs_self", "paren", "frag")
     g = "<T>" if generic else ""
     if s["shape"] == "generic_self_hrtb_inline":
         # an inline bound that is already higher-ranked and mentions `Self`
@@ -64,6 +66,12 @@ def render(s):
     mkt = (lambda e: f"<T as ::dxrt::Tm>::mk({e})") if generic else (lambda e: f"{TERM}({e})")
     lhs_ty = f"&{A}" if s["lref"] else A
     rhs_ty = f"&{B}" if s["rref"] else B
+    if s["shape"] == "paren":
+        lhs_ty, rhs_ty = f"({lhs_ty})", f"({rhs_ty})"
+    frag_call = None
+    if s["shape"] == "frag":
+        frag_call = f"mk!({lhs_ty}, {rhs_ty});"
+        lhs_ty, rhs_ty = "$this", "$rhs"
     reqs = ", ".join(op + ("Assign" if r == "OpAssign" else "") for r in s["req"])
     # `Self` spelled in the user's impl where the shape asks for it
     out_ty = "Self" if (s["shape"] == "output_self" and not s["lref"]) else A
@@ -88,6 +96,8 @@ def render(s):
         impl = (f"#[::derive_ex::derive_ex({reqs})]\n"
                 f"impl{g} ::core::ops::{op}Assign<{rhs_ty}> for {A} {wh} {{\n"
                 f"    fn {fn}_assign(&mut self, uo: {rhs_ty}) {{ let l = {getl}; let r = {getr}; {log} self.0 = {asg_val}; }}\n}}")
+    if frag_call:
+        impl = "macro_rules! mk { ($this:ty, $rhs:ty) => {\n" + impl + "\n} }\n" + frag_call
     mk_a = f"A({TERM}::new(\"a\"))"
     mk_b = (f"O({TERM}::new(\"b\"))" if s["other"] else f"A({TERM}::new(\"b\"))")
     def sh(x):
